@@ -665,7 +665,21 @@ func exec_(in In) vh.Result {
 		}
 		for _, e := range evs {
 			if e.Kind == "note" && e.Name == "observe" {
-				all = append(all, &scorch.VerifEvent{Kind: "note", Name: "copy_dest", Args: append([]uint64{copyEpochs[i]}, e.Args...)})
+				// judged where the copy ended (same session: the batch history is intact there)
+				n := &scorch.VerifEvent{Kind: "note", Name: "copy_dest", Args: append([]uint64{copyEpochs[i]}, e.Args...)}
+				seen, pos := 0, len(all)
+				for j, a := range all {
+					if a.Kind == "copy_end" {
+						if seen == i {
+							pos = j + 1
+							break
+						}
+						seen++
+					}
+				}
+				all = append(all, nil)
+				copy(all[pos+1:], all[pos:])
+				all[pos] = n
 				hist = append(hist, "copy-opened")
 			}
 		}
